@@ -5,7 +5,11 @@
 set -u
 name="$1"; shift
 checks="$*"
-wt=/tmp/seed-$name; out=/tmp/seed-$name-out
+# second-campaign seeds live in /tmp/seed2-<Cnn> and are stored as <Cnn>-b
+case "$name" in
+  *-b) base="${name%-b}"; wt=/tmp/seed2-$base; out=/tmp/seed2-$base-out ;;
+  *)   wt=/tmp/seed-$name; out=/tmp/seed-$name-out ;;
+esac
 dst=/verif/seeded/$name
 [ -f "$out/patch.diff" ] || { echo "no patch for $name"; exit 2; }
 mkdir -p "$dst"
@@ -37,6 +41,8 @@ echo "demo with change: $demo_with ; without: $demo_without" >> "$log"
 rm -f "$log.full"
 # run our checks against it
 cd /verif
+# evidence files are rewritten by every check run: keep the ones from the unchanged tree
+rm -rf /verif/target-mc/evidence.bak; cp -r /verif/evidence /verif/target-mc/evidence.bak
 results=""
 if git -C /repo apply --check "$out/patch.diff" 2>>"$log"; then
   git -C /repo apply "$out/patch.diff"
@@ -50,5 +56,6 @@ if git -C /repo apply --check "$out/patch.diff" 2>>"$log"; then
 else
   echo "patch does not apply to /repo HEAD" >> "$log"; results="noapply"
 fi
+rm -rf /verif/evidence; mv /verif/target-mc/evidence.bak /verif/evidence
 cp "$out/patch.diff" "$dst/patch.diff"; cp "$out/demo.diff" "$dst/demo.diff" 2>/dev/null; cp "$out/notes.md" "$dst/notes.md" 2>/dev/null
 echo "$name suite_ok=$suite_ok demo_with=$demo_with demo_without=$demo_without results:$results"
